@@ -11,6 +11,18 @@ VERIF = os.path.dirname(os.path.dirname(os.path.abspath(__file__)))
 EVIDENCE_DIR = os.path.join(VERIF, "evidence")
 REPLAY_DIR = os.path.join(EVIDENCE_DIR, "replay")
 KNOWN_FINDINGS = os.path.join(VERIF, "known_findings.json")
+FLOORS = os.path.join(VERIF, "floors.json")
+
+
+def load_floors():
+    """Minimum number of decided instances per rule, calibrated on the reference tree
+    (tools/calibrate_floors.py: 60% of the count confirmed there).  A rule that decides
+    fewer instances has lost its anchors: ANALYSIS-ERROR, never a silent pass."""
+    try:
+        with open(FLOORS) as f:
+            return json.load(f)
+    except Exception:
+        return {}
 
 
 class AnalysisError(Exception):
@@ -108,7 +120,12 @@ def finish(chk):
     per_rule = []
     samples = []
     distinct = set()
+    floors = load_floors()
     for r in chk.rules:
+        if r.rid in floors:
+            r.floor = floors[r.rid]
+        if os.environ.get("VERIF_CALIBRATE"):
+            r.floor = 0
         n_ok, n_v, n_u = len(r.ok_items), len(r.violations), len(r.undecided_items)
         total_obl += n_ok + n_v + n_u
         total_ok += n_ok
